@@ -4,9 +4,20 @@ import json, subprocess, os
 HOOK_COMMITS = subprocess.run(["git","-C","/repo","log","--format=%h %s"],capture_output=True,text=True).stdout.splitlines()
 hooks = [l.split()[0] for l in HOOK_COMMITS if "verif hook" in l]
 TECH = "function contracts + weakest-precondition VCs over go/ssa, discharged by z3/cvc5"
+ENGINE_NOTE = "sequential per-section reasoning under the monitor rule: protected state is forgotten and the section invariant assumed where a section starts; assumed and not proved: key-table linearizability, PriorityMutex mutual exclusion, the reference-count discipline of queue maintenance (clauses marked 'assumes'), queue internals (contracts marked trusted, subject of C20); every assumed clause is listed in the evidence file on each run"
 claimed = {
- "C01": ("proof", "admission rule of doLock proved for all inputs (every uint32/uint16 value, any heap): a granted request sees locked <= its Count and <= the oldest holder's Count; the Count==0xffff 'unlimited' class is a recorded known finding",
-         "contracts on doLock only so far; grant sites and the monitor invariant (locked == sum of depths) not yet under contract; key table and PriorityMutex trusted", "4/C01"),
+ "C01": ("proof", "doLock's admission rule proved for all inputs; at every grant site of LockDB.Lock the rule holds in the state of the grant and the manager still owns the request's key (site obligations), AddLock/RemoveLock keep depth and oldest-holder as specified; the Count==0xffff 'unlimited' class is a recorded known finding",
+         ENGINE_NOTE + "; grant sites inside wakeUpWaitLock not yet under contract", "4/C01"),
+ "C02": ("proof", "UnLock: a SUCCED reply implies the request's LockId (or, unlock-first, the oldest holder) held the key, the depth arithmetic follows Rcount exactly, the hold ends iff depth reaches zero; refusals change nothing; GetLockedLock soundness; re-entrant branch of Lock bounded by Rcount and 0xff",
+         ENGINE_NOTE + "; completeness of the holder lookup in the map-backed queue (GetLock) is assumed (trusted queue contract)", "4/C02"),
+ "C03": ("proof", "path-sensitive reply accounting for LockDB.Lock and LockDB.UnLock: on every path exactly one terminal reply, or the request is handed to exactly one retaining mechanism (wait queue, ack pending, re-dispatch), never both; command objects freed at most once",
+         ENGINE_NOTE + "; repliers outside Lock/UnLock (doTimeOut, doExpried, wakeUpWaitLock, cancelWaitLock, DoAckLock) and routing by proxy not yet under contract", "4/C03"),
+ "C04": ("proof", "UnLock: every path on which capacity was released runs the wake pass before returning; GetWaitLock returns only live waiters",
+         ENGINE_NOTE + "; wake loop, expiry/timeout/rollback callers, queue order and priority not yet under contract", "4/C04"),
+ "C10": ("proof", "kernel only: LockDB.Lock and LockDB.UnLock answer STATE_ERROR and leave the engine state untouched whenever the node is not leader and the request is not from the log; PushLockAof/PushUnLockAof/PushExecutorLockCommand are no-ops on a non-leader",
+         ENGINE_NOTE + "; dispatch in the protocol handlers, forwarding by the transparency layer and the follower expiry re-arm not yet under contract; two-process behaviour is outside", "4/C10"),
+ "C17": ("proof", "LCount/LRCount arguments at every reply site of Lock/UnLock equal the counters read under the mutex; LockedCount and WaitCount change exactly with the manager's hold total and queue additions along every path of Lock/UnLock; RemoveLockManager drops the key's value whenever it releases the key",
+         ENGINE_NOTE + "; reference-count reclamation (drain lemma) not proved", "4/C17"),
  "C14": ("proof", "for all field values / all 64-byte inputs: Decode(Encode(x)) == x and Encode(Decode(b)) == b on every defined byte for all 20 command/result types (real Encode/Decode bodies composed by harness functions), and the LOCK/UNLOCK request and response frames match the README offsets byte for byte",
          "string fields (CALL method name, error type, leader host) are excluded from the value round trip (strings.Trim not modelled); server-side hand-inlined codecs, text parser chunk independence and text<->binary equivalence not yet under contract", "4/C14"),
  "C12": ("proof", "CompareAofId equals the specified log-position order (index with wrap-around, then offset, then command time) for all 2^256 input pairs",
